@@ -64,6 +64,9 @@ def gen_entity(rng, eid, tag):
         d["aa"] = {"keys": keys(), "attribute_service": eps("aa", lo=1)}
     if rng.random() < 0.4:
         d["entity_categories"] = rng.sample(CATS, rng.randint(1, 2))
+    # the same declarations in another legal spelling (xs:boolean "1"/"0", typed attribute values)
+    if rng.random() < 0.35:
+        d["lexical"] = {"bool": rng.choice(["digits", "digits", "padded"]), "ecat_type": rng.choice([None, "xs:string", "xs:anyURI"])}
     return d
 
 
